@@ -258,7 +258,7 @@ def from_2d_array_to_nested(
 
     if time_index is None:
         time_index = np.arange(n_timepoints)
-    kwargs = {"index": time_index}
+    kwargs = {} if cells_as_numpy else {"index": time_index}
 
     Xt = pd.DataFrame(
         pd.Series([container(X[i, :], **kwargs) for i in range(n_instances)])
